@@ -46,7 +46,8 @@ def post(ctx, cases, gores, model):
                          "applied): the window / random schedules fell back to polling and no handshake trace was recorded")
     if lines:
         res = checklib.run_driver(ctx, ctx.prop, {i: tr for i, (tr, _) in enumerate(lines)}, args=["hs"], shards=4)
-        bad = [i for i in sorted(res) if not res[i][0].startswith("ok ")]
+        # a trace must be accepted AND end with the thread executing again (`m,w` = parked for ever is not ok)
+        bad = [i for i in sorted(res) if not (res[i][0].startswith("ok ") and res[i][0].endswith(".run"))]
         # a trace must also end with the thread executing again unless the case hung
         cov["traces_validated_against_impl"] = len(res) - len(bad)
         cov["handshake_events_replayed"] = sum(len(tr.split(",")) for tr, _ in lines)
@@ -55,7 +56,7 @@ def post(ctx, cases, gores, model):
             rp = checklib.write_replay(ctx, "trace", {"payload": payload, "readable": decode(payload), "handshake_trace": tr},
                                        "every recorded hook event is a step of Hs.step (lean/Ecal/Model/Debug.lean)",
                                        res[i][0], f"./check {ctx.prop} --replay <this file>", tag=tr)
-            checklib.violation(ctx, rp, f"handshake trace not accepted by the model: {res[i][0]}")
+            checklib.violation(ctx, rp, f"handshake trace not accepted by the model or thread left parked: {res[i][0]}")
 
 
 def extract(ctx):
